@@ -209,6 +209,7 @@ RunRead(s) ==
       b == StreamBuf(s, h, st)
   IN
   IF ~StreamOpen(s, h, st) THEN Done([s EXCEPT !.fr.r = EPIPE])
+  ELSE IF Len(b) > 0 /\ n = 0 THEN Done([s EXCEPT !.fr.r = 0])   \* nothing asked for: nothing consumed, nothing closed
   ELSE IF Len(b) > 0 THEN Done(Deliverk(s, h, st, Min(n, Len(b))))
   ELSE IF StreamWriters(s, h, st) = {} THEN Done([ClosePend(s, h, st) EXCEPT !.fr.r = EPIPE])
   ELSE IF s.opt[h].nb THEN Done([s EXCEPT !.fr.r = EWOULDBLOCK])
@@ -330,7 +331,7 @@ RetRec(s) ==
   LET f == s.fr
       base == [e |-> "ret", t |-> now, sig |-> f.sigs, reap |-> f.reaped, mon |-> <<>>,
                nfd |-> NFd(s), nalloc |-> NAlloc(s), st |-> ChildStates(s)]
-  IN CASE f.fn = "poll" /\ f.r # EPIPE -> base @@ [rev |-> [any |-> SetToSeq(f.x)]]
+  IN CASE f.fn = "poll" /\ f.r = 0 -> base @@ [rev |-> [any |-> SetToSeq(f.x)]]
        [] f.fn = "read" /\ f.r > 0 -> base @@ [r |-> f.r, runs |-> f.x, bad |-> 0]
        [] f.alt # {} -> base @@ [r |-> [any |-> SetToSeq({f.r} \cup f.alt)]]
        [] OTHER -> base @@ [r |-> f.r]
@@ -367,7 +368,7 @@ Begin(fn, h, args, f) ==
 \* h = 0 stands for a NULL handle in every call
 
 New(h) ==
-  /\ h # 0 /\ life[h] = "none"
+  /\ h # 0 /\ life[h] = "none" /\ ch[h].alive = "none"   \* a handle index is used for one object only
   /\ Idle /\ ncalls' = ncalls + 1
   /\ Finish([Bundle EXCEPT !.life[h] = "ns", !.fr = [Frame("new", h, "done", <<>>) EXCEPT !.r = 1]],
             Append(hist, CallRec("new", h, NoArgs)))
@@ -479,6 +480,13 @@ ChildExit(h, code) ==
   /\ EnvOK /\ ch[h].alive = "run" /\ ch[h].self
   /\ ch' = [ch EXCEPT ![h] = Zombie(@, code)]
   /\ hist' = Append(hist, EnvRec("exit", h, [code |-> code]))
+  /\ UNCHANGED <<life, stv, opt, pend, buf, cnt, now, fr, ncalls>>
+
+\* the child is ended by a signal from somewhere else (core = 1: with a core dump flag in the status word)
+ChildSignalled(h, sig, core) ==
+  /\ EnvOK /\ ch[h].alive = "run" /\ ch[h].self
+  /\ ch' = [ch EXCEPT ![h] = Zombie(@, 128 + sig)]
+  /\ hist' = Append(hist, EnvRec("die", h, [sig |-> sig + 128 * core]))
   /\ UNCHANGED <<life, stv, opt, pend, buf, cnt, now, fr, ncalls>>
 
 ChildDie(h) ==
